@@ -173,7 +173,8 @@ def run_lines(cmd, lines, timeout=3600):
 class Stream:
     """One correspondence stream: cases → implementation, model, oracle."""
 
-    def __init__(self, name, bin, engine, gen_cmds, impl_args=("run",), nontrivial=None, shape=None, shrink=None):
+    def __init__(self, name, bin, engine, gen_cmds, impl_args=("run",), nontrivial=None, shape=None, shrink=None,
+                 compare_model=True):
         self.name = name  # e.g. "conv"
         self.bin = bin  # harness binary
         self.engine = engine  # cruxdrv engine name
@@ -182,6 +183,8 @@ class Stream:
         self.nontrivial = nontrivial or (lambda case, out: True)
         self.shape = shape or (lambda case, out: case)
         self.shrink = shrink  # fn(case) -> list of smaller candidate cases
+        # False: the stream has no exact model (e.g. real-thread interleavings); only the oracle decides
+        self.compare_model = compare_model
 
 
 def known_findings():
@@ -202,9 +205,12 @@ def evaluate(stream, cases):
         raise RuntimeError(
             f"harness {stream.bin} returned {len(impl)} lines for {len(cases)} cases (rc={rc}): {err[-2000:]}"
         )
-    rc, model, err = run_lines([DRV, "model", stream.engine], cases)
-    if len(model) != len(cases):
-        raise RuntimeError(f"cruxdrv model {stream.engine}: {len(model)} lines for {len(cases)} cases: {err[-2000:]}")
+    if stream.compare_model:
+        rc, model, err = run_lines([DRV, "model", stream.engine], cases)
+        if len(model) != len(cases):
+            raise RuntimeError(f"cruxdrv model {stream.engine}: {len(model)} lines for {len(cases)} cases: {err[-2000:]}")
+    else:
+        model = list(impl)
     rc, oracle, err = run_lines([DRV, "oracle", stream.engine], [c + "\t" + i for c, i in zip(cases, impl)])
     if len(oracle) != len(cases):
         raise RuntimeError(f"cruxdrv oracle {stream.engine}: {len(oracle)} lines for {len(cases)} cases: {err[-2000:]}")
